@@ -24,6 +24,9 @@ def guards(run, fx):
     run.selftest("guard/flag-false/ok", has("guard_ok"), True)
     run.selftest("guard/flag-false/early-return-spelling", has("guard_ok_early_return"), True)
     run.selftest("guard/flag-false/dropped", has("guard_bad_dropped"), False)
+    b = fx.bodies[F + "guard_ok_via_bool_local"]
+    ats = G.guard_atoms(b, _call_bb(b, "::act"), fx)
+    run.selftest("guard/bool-local-with-computed-arm", any(a[0] == "is_some" and a[2] is False for a in ats) and any(a[0] == "is_some" and a[2] is True and K.mentions_call(a[1][0], "first") for a in ats), True)
     run.selftest("guard/flag-false/disjunction", has("guard_bad_or"), False)
     run.selftest("guard/flag-false/polarity", has("guard_bad_polarity"), False)
     # comparison normalisation: x < 10 in both spellings
@@ -66,7 +69,7 @@ def downgrade(run, fx):
 
 
 def ambient(run, fx):
-    for fn, exp in (("ambient_bad", True), ("ambient_bad_hash_order", True), ("ambient_bad_env", True), ("ambient_via_callee_bad", True), ("ambient_ok", False)):
+    for fn, exp in (("ambient_bad", True), ("ambient_bad_hash_order", True), ("ambient_bad_env", True), ("ambient_bad_random_state", True), ("ambient_via_callee_bad", True), ("ambient_ok", False)):
         U, eff = effects.reachable_effects(fx, [F + fn])
         run.selftest("ambient-effects/" + fn, bool(eff), exp)
 
